@@ -297,7 +297,7 @@ def gen_ops(rng: random.Random, nops: int) -> list[dict]:
         elif kind == 'segment':
             op.update(head=rng.randrange(64), tail=rng.choice([None, None, rng.randrange(64)]))
         elif kind in ('copy', 'compose'):
-            op.update(seg=rng.randrange(64))
+            op.update(seg=rng.randrange(64), mode=rng.choice(['apply', 'apply', 'train']))
         elif kind == 'release':
             op.update(slot=rng.randrange(8))
         ops.append(op)
@@ -586,8 +586,9 @@ def run_case(ops: list[dict], known_sites: typing.Sequence[str] = ()) -> dict:
                     expect = info
                 elif status == 'ok' and visited_future:
                     expect = 'placeholder in composition'
-                where = f'step {step}: Composition over Segment(node{head}..node{tail})'
-                call(lambda: flow.Composition(graphs.Const(flow.Trunk(seg))), where, expect, step,
+                mode = op.get('mode', 'apply')
+                where = f'step {step}: Composition with Segment(node{head}..node{tail}) as its {mode} segment'
+                call(lambda: flow.Composition(graphs.Const(flow.Trunk(**{mode: seg}))), where, expect, step,
                      unknown=status == 'unknown' or visited_future is None or model.has_cycle_from(head),
                      only_cycles=model.has_cycle_from(head))
                 stats['op:compose'] += 1
